@@ -76,6 +76,11 @@ def draw_path(dec, system):
             nodes.append(None)
         nodes.append([round(0.125 * dec(f"path/node/{i}/{j}", 11) - 0.25, 4) for j in range(3)])
         labels.append(f"P{i}")
+    if dec.chance("path/zoom", 1, 4):         # a zoom-in segment: distinct points much closer than any matching tolerance
+        last = nodes[-1]
+        step_ = 1e-6 * (1 + dec("path/zoom_step", 4))
+        nodes.append([round(last[0] + 7 * step_, 9), round(last[1] - 5 * step_, 9), round(last[2] + 3 * step_, 9)])
+        labels.append("Z")
     if dec.chance("path/closed", 1, 5):       # revisit the first point
         nodes.append(list(nodes[0]))
         labels.append("P0'")
